@@ -14,6 +14,8 @@ import Uquic.Proofs.CongStep
 import Uquic.Proofs.CongPacer
 import Uquic.Proofs.CongTrace
 import Uquic.Proofs.CongOverflow
+import Uquic.Proofs.CongGlue
+import Uquic.Model.Cong.Glue
 
 namespace Uquic.Props.C20
 
@@ -126,6 +128,47 @@ example : ∃ s : Sender, ∃ pn, s.lastCutback < pn ∧ (s.step (.lost pn 0 0))
 theorem no_decrease_on_ack (s : Sender) (pn : Int) (b prior : Nat) (t : Int) :
     s.cwnd ≤ (s.step (.acked pn b prior t)).1.cwnd :=
   (step_old_loss s (.acked pn b prior t) (by intro _ _ _ e; cases e)).1
+
+
+/-! ### (2') the glue: what sent_packet_handler.go reports to the controller -/
+
+/-- Every congestion event `ReceivedAck` raises is either the ECN-CE event — reported for the ACK
+frame's LARGEST ACKNOWLEDGED packet, with 0 lost bytes — or a loss event carrying the number of a
+packet that loss detection declared lost. -/
+theorem glue_congestion_event_packet (g : Glue) (ranges : List (Int × Int)) (congested : Bool) (lost : List Int) :
+    ∀ c ∈ g.ackCalls ranges congested lost, ∀ pn b p, c = Call.cong pn b p →
+      (congested = true ∧ pn = largestOf ranges ∧ b = 0) ∨ pn ∈ lost :=
+  ackCalls_cong g ranges congested lost
+
+/-- Once per window, through the handler: an ACK frame that acknowledges and reports lost only
+packets at or below the cut-back mark (packets of the flight that was already reduced: the mark is
+the largest ack-eliciting packet sent when the window was cut) does not shrink the window again,
+whether or not it carries further CE marks, and leaves the mark in place. -/
+theorem glue_ack_once_per_window (g : Glue) (ranges : List (Int × Int)) (congested : Bool) (lost tracked : List Int)
+    (hce : congested = true → largestOf ranges ≤ g.s.lastCutback)
+    (hl : ∀ pn ∈ lost, pn ≤ g.s.lastCutback) :
+    g.s.cwnd ≤ (g.ack ranges congested lost tracked).1.s.cwnd ∧
+    (g.ack ranges congested lost tracked).1.s.lastCutback = g.s.lastCutback :=
+  ack_old_window g ranges congested lost tracked hce hl
+
+/-- … and the same for losses declared by the loss timer -/
+theorem glue_timeout_once_per_window (g : Glue) (lost tracked : List Int)
+    (hl : ∀ pn ∈ lost, pn ≤ g.s.lastCutback) :
+    g.s.cwnd ≤ (g.timeout lost tracked).1.s.cwnd ∧
+    (g.timeout lost tracked).1.s.lastCutback = g.s.lastCutback :=
+  timeout_old_window g lost tracked hl
+
+/-- Why the packet number matters (the variant seeded as C20-r2s2): a flight of ten packets, the CE
+mark on packet 1 cuts the window once (38400 → 26880, mark 9); three more packets are sent; a CE
+mark on packet 2 of the old flight is ignored when reported for the largest ACKED packet (2 ≤ 9),
+but cuts the window a second time (→ 18816) when reported for the largest SENT packet (12 > 9). -/
+theorem glue_wrong_packet_number_witness :
+    let g1 := Glue.sendMany { s := Sender.new 1200 Rtt.default } 1000 1200 [0, 1, 2, 3, 4, 5, 6, 7, 8, 9]
+    let g2 := (g1.ack [(0, 1)] true [] [2, 3, 4, 5, 6, 7, 8, 9]).1
+    let g3 := g2.sendMany 1000 1200 [10, 11, 12]
+    g1.s.cwnd = 38400 ∧ g2.s.cwnd = 26880 ∧ g2.s.lastCutback = 9 ∧
+    (g3.ack [(0, 2)] true [] [3, 4, 5, 6, 7, 8, 9, 10, 11, 12]).1.s.cwnd = 26880 ∧
+    (g3.apply (g3.ackCallsWrong [(0, 2)] true [])).s.cwnd = 18816 := by decide
 
 /-! ### (3) growth -/
 
@@ -262,6 +305,19 @@ example :
   · simp only [PacerMDSOk]; decide
   · simp only [TimesMono]; decide
   · simp only [BwBounded]; decide
+
+
+/-- Time stamps that go backwards earn nothing: for a `now` at or before the previous send (any
+distance up to 2^63 ns) the budget is at most what was left in the bucket at that send — so the
+interval bound above holds with `max(0, Δt)` for time stamps in any order (`tokens` is 0 then). -/
+theorem pacer_earlier_stamp_no_credit (s : Sender) (now : Int) (hT : s.pacer.lastSent ≠ 0)
+    (hm : PacerMDSOk s.pacer.mds) (h : now ≤ s.pacer.lastSent) (hr : s.pacer.lastSent - now ≤ 2 ^ 63) :
+    s.budget now ≤ s.pacer.budgetAtLastSent ∧ tokens s.pacer s.bw now = 0 :=
+  ⟨budget_earlier s.pacer s.bw now hT hm h hr, tokens_earlier s.pacer s.bw now h hr⟩
+
+example :
+    let s := (Sender.new 1252 Rtt.default).run [.sent 5000000 1 1252 true]
+    s.pacer.lastSent ≠ 0 ∧ s.budget 4999000 = 11548 ∧ s.pacer.budgetAtLastSent = 11548 := by decide
 
 /-- the bandwidth the pacer uses is at most 1.25 × the estimate `cwnd·10⁹/srtt` (exact arithmetic);
 64-bit wrap-around can only lower it -/
